@@ -36,7 +36,37 @@ def ev_prop(pid):
     }
 
 
+def c18_extra(tier, seed, cov, notes, ctx):
+    """Keyboard against three separately driven stages on the real crate (harness kbiso)."""
+    import re
+    rc, out, dt = ctx.sh([ctx.HARNESS, 'kbiso', 'thorough' if tier == 'thorough' else 'quick'], timeout=3000)
+    viol = []
+    n = sum(int(m.group(1)) for m in re.finditer(r'^N \S+ comparisons (\d+)', out, re.M))
+    cov['traces_validated_against_impl'] = n
+    cov['kbiso'] = [l for l in out.split('\n') if l.startswith('N ')]
+    if rc != 0 or n == 0:
+        path = ctx.write_replay('C18', 'unproved', {'property': 'C18', 'kind': 'no-failing-input-found', 'broken': ['harness kbiso'], 'output': {'kbiso': out[-1500:]}})
+        return [(path, ' no-failing-input-found')]
+    lines = out.split('\n')
+    for i, l in enumerate(lines):
+        if l.startswith('M '):
+            desc = l[2:].strip()
+            rep = {'property': 'C18', 'kind': 'kbd', 'input_text': desc, 'harness_cmd': ['replay', 'kbd', desc],
+                   'crate_actual': lines[i + 1].strip(), 'expected': lines[i + 2].strip()}
+            viol.append((ctx.write_replay('C18', 'cex', rep), ''))
+    return viol
+
+
 PROPS = {
+    'C18': {
+        'lib': LIB + ['Spec/Compose'],
+        'syn': ['Props/C18'], 'needs_syn': ['Gen/Lib', 'Spec/Compose'],
+        'ext': [], 'corr': [],
+        'needs_syn_generality': True,
+        'extra': c18_extra, 'extra_always': True,
+        'replay_kind': 'kbd',
+        'exhaustive': True,
+    },
     'C04': ev_prop('C04'),
     'C14': ev_prop('C14'),
     'C19': {
